@@ -39,6 +39,8 @@ impl MemoryAllocation {
         } else if layout.size() > isize::MAX as usize {
             panic_allocate_too_much()
         } else {
+            #[cfg(dashu_verif)]
+            let _site = crate::verif::FallibleSite::enter();
             // SAFETY: it's checked above that layout.size() != 0.
             let ptr = unsafe { alloc::alloc::alloc(layout) };
             if ptr.is_null() {
